@@ -22,7 +22,10 @@ import (
 
 var epoch = time.Date(2024, 3, 10, 0, 0, 0, 0, time.UTC)
 
-type window struct{ start, end time.Time; step time.Duration }
+type window struct {
+	start, end time.Time
+	step       time.Duration
+}
 
 func (w window) Start() time.Time    { return w.start }
 func (w window) End() time.Time      { return w.end }
@@ -314,6 +317,62 @@ func body(c *explore.Chooser) *explore.Case {
 	return cs
 }
 
+// sequence: two range queries for the same expression and step, one after the other, on one client that has a
+// query cache (as in `pint watch` and whenever several checks look at one metric). What the second query returns
+// must not depend on what was asked before: it is compared with the same query on a fresh client.
+func sequence(c *explore.Chooser) *explore.Case {
+	step := []time.Duration{5 * time.Minute, 7 * time.Minute, time.Minute}[c.Free(3, "step")]
+	starts := []time.Duration{0, time.Hour, 2 * time.Hour, 90*time.Minute + 13*time.Second}
+	lengths := []time.Duration{2*time.Hour + 30*time.Second, 4*time.Hour + 30*time.Second, 3 * time.Hour, 4 * time.Hour, 2*time.Hour + step, time.Hour}
+	mk := func(tag string) window {
+		w := window{start: epoch.Add(starts[c.Free(len(starts), tag+".start")]), step: step}
+		w.end = w.start.Add(lengths[c.Free(len(lengths), tag+".length")])
+		return w
+	}
+	w1, w2 := mk("first"), mk("second")
+	gaps := c.Free(2, "gaps") == 1
+	present := func(s int, t time.Time) bool {
+		if !gaps {
+			return true
+		}
+		k := int(t.Sub(epoch)/step) + s
+		return k%7 != 3 && k%25 != 0
+	}
+	fixedNow := epoch.Add(24 * time.Hour)
+	run := func(ws ...window) (string, error) {
+		fp := &fakeProm{failAt: -1, series: []string{"a", "b"}, present: present}
+		prom := promapi.VerifNewPrometheus("p", "http://fake", 2, fp, func() time.Time { return fixedNow })
+		prom.StartWorkers()
+		defer prom.Close()
+		var out string
+		for _, w := range ws {
+			res, err := prom.RangeQuery(context.Background(), "m", w)
+			if err != nil {
+				return "", err
+			}
+			var l []string
+			for _, r := range res.Series.Ranges {
+				l = append(l, fmt.Sprintf("%s %s..%s", r.Labels.Get("s"), r.Start.UTC().Format("15:04:05"), r.End.UTC().Format("15:04:05")))
+			}
+			sort.Strings(l)
+			out = strings.Join(l, ";")
+		}
+		return out, nil
+	}
+	input := map[string]any{"step": step.String(), "first_query": fmt.Sprintf("%s..%s", w1.start.Format("15:04:05"), w1.end.Format("15:04:05")), "second_query": fmt.Sprintf("%s..%s", w2.start.Format("15:04:05"), w2.end.Format("15:04:05")), "gaps": gaps}
+	cs := &explore.Case{Input: input, Key: fmt.Sprint(input), Outcome: "sequence"}
+	warm, err1 := run(w1, w2)
+	cold, err2 := run(w2)
+	if err1 != nil || err2 != nil {
+		cs.Violate("sequence: range-query-error", fmt.Sprint(err1, err2), input)
+		return cs
+	}
+	if warm != cold {
+		cs.Violate(fmt.Sprintf("sequence: earlier query changes the answer step=%s", step), fmt.Sprintf("asked after %v the query returns %s, asked on a fresh client it returns %s", input["first_query"], warm, cold), input)
+	}
+	return cs
+}
+
 // orders: all arrival orders of slice responses under the controlled scheduler.
 func orders(c *explore.Chooser) *explore.Case {
 	step := []time.Duration{5 * time.Minute, 7 * time.Minute}[c.Free(2, "step")]
@@ -418,10 +477,11 @@ func ifThorough(a, b int) int {
 func main() {
 	explore.Main(&explore.Config{
 		Property: "C13", Level: "exploration",
-		Rule: "real Prometheus.RangeQuery over a fake transport answering every query_range slice from a presence model; windows = 6 steps (incl. 7m and 11m which do not divide 2h) x 5 start offsets x 6 lengths x concurrency 1..3; presence patterns = ALL subsets of the grid for coarse grids (quick: <=7 points one series, <=3 two series; thorough: <=10 / <=5), otherwise always / one run / one gap / single missing point / single present point with end points on every window edge and within +-2 grid points of every slice boundary, for one and two series; oracle: every grid point requested exactly once on one global grid, result ranges = maximal runs of present consecutive grid points computed without slices; space arrival-orders: the same client with its synchronisation replaced by scheduler shims, 2-4 slices, concurrency 1..3, a gap right after a slice boundary and a series straddling the next one: every schedule within 2 (thorough 3) departures from the default one, with happens-before state caching: result equals the unsliced reference, one failing slice makes the call fail, no deadlock, no goroutine left behind",
+		Rule:        "real Prometheus.RangeQuery over a fake transport answering every query_range slice from a presence model; windows = 6 steps (incl. 7m and 11m which do not divide 2h) x 5 start offsets x 6 lengths x concurrency 1..3; presence patterns = ALL subsets of the grid for coarse grids (quick: <=7 points one series, <=3 two series; thorough: <=10 / <=5), otherwise always / one run / one gap / single missing point / single present point with end points on every window edge and within +-2 grid points of every slice boundary, for one and two series; oracle: every grid point requested exactly once on one global grid, result ranges = maximal runs of present consecutive grid points computed without slices; space arrival-orders: the same client with its synchronisation replaced by scheduler shims, 2-4 slices, concurrency 1..3, a gap right after a slice boundary and a series straddling the next one: every schedule within 2 (thorough 3) departures from the default one, with happens-before state caching: result equals the unsliced reference, one failing slice makes the call fail, no deadlock, no goroutine left behind; space sequence: two range queries (24 windows each, incl. ends just after a slice boundary) for one expression and step on one client with a query cache: the second answer must equal the answer of a fresh client",
 		Assumptions: []string{"presence is instantaneous (a sample exists at grid instant t iff the pattern says so)", "in the values space the arrival order of slice responses is whatever the Go runtime produces; the arrival-orders space enumerates schedules under the controlled scheduler"},
 		Spaces: []*explore.Space{
 			{Name: "values", Body: body, Bound: func(string) int { return -1 }, Setup: func(t string) { tier = t }},
+			{Name: "sequence", Body: sequence, Bound: func(string) int { return -1 }, Setup: func(t string) { tier = t }},
 			{Name: "arrival-orders", Body: orders, StateCache: true, Setup: func(t string) { tier = t }, Bound: func(t string) int {
 				if t == "thorough" {
 					return 3
